@@ -226,16 +226,63 @@ def laws_c05(F):
     L.require_eq(F['q_magnitude2'](q), R.lit(1))
     L.eq(mq(F['q_mul'](p, q)), F['m3_mul'](mq(p), mq(q)))
     out.append(L)
+    # entries of M(q) for unit q that the matrix -> quaternion conversion reads (used by the round-trip law)
+    from c_matrix import at
+    L = CertLaw('m_from_q_entries', [('q', Q)])
+    q, = L.vars
+    L.require_eq(F['q_magnitude2'](q), R.lit(1))
+    m = mq(q)
+    a = lambda c, r: at(m, c, r)
+    s, x, y, z = q.s, q.v.x, q.v.y, q.v.z
+    four = R.lit(4)
+    L.eq(R.lit(1) + (a(0, 0) + (a(1, 1) + a(2, 2))), four * s * s)
+    L.eq((a(0, 0) - a(1, 1) - a(2, 2)) + R.lit(1), four * x * x)
+    L.eq((a(1, 1) - a(0, 0) - a(2, 2)) + R.lit(1), four * y * y)
+    L.eq((a(2, 2) - a(0, 0) - a(1, 1)) + R.lit(1), four * z * z)
+    L.eq(a(1, 2) - a(2, 1), four * x * s)
+    L.eq(a(2, 0) - a(0, 2), four * y * s)
+    L.eq(a(0, 1) - a(1, 0), four * z * s)
+    L.eq(a(1, 0) + a(0, 1), four * x * y)
+    L.eq(a(0, 2) + a(2, 0), four * x * z)
+    L.eq(a(2, 1) + a(1, 2), four * y * z)
+    out.append(L)
     return out
 
 
 def laws_c07(F):
     out = []
+    # exact rebuild in the regular branch, polynomial core: with t = sin y = 2(qx qz + qy qw), cy = cos y (cy^2 = 1 - t^2, cy != 0),
+    # and sin/cos of x, z written as the atan2 numerators / denominators over cy, the code-shaped Euler matrix is M(q)
+    L = CertLaw('euler_rebuild', [('q', Q), ('cy', R)])
+    q, cy = L.vars
+    s, x, y, z = q.s, q.v.x, q.v.y, q.v.z
+    two, one = R.lit(2), R.lit(1)
+    t = two * (x * z + y * s)
+    Yx = two * ((-y) * z + x * s)
+    Xx = one - two * (x * x + y * y)
+    Yz = two * ((-x) * y + z * s)
+    Xz = one - two * (y * y + z * z)
+    L.require_eq(F['q_magnitude2'](q), one)
+    L.require_eq(cy * cy, one - t * t)
+    L.require_nonzero(cy)
+    L.eq(code_m_euler(Yx / cy, Xx / cy, t, cy, Yz / cy, Xz / cy, n=3), F['m3_from_q'](q))
+    L.eq(Yx * Yx + Xx * Xx, one - t * t)
+    L.eq(Yz * Yz + Xz * Xz, one - t * t)
+    out.append(L)
+    names = ['shx', 'chx', 'shy', 'chy', 'shz', 'chz']
+    L = CertLaw('q_euler_matrix', [(n, R) for n in names])
+    shx, chx, shy, chy, shz, chz = L.vars
+    for s_, c_ in ((shx, chx), (shy, chy), (shz, chz)):
+        L.require_eq(s_ * s_ + c_ * c_, one)
+    L.eq(F['m3_from_q'](code_q_euler(shx, chx, shy, chy, shz, chz)),
+         code_m_euler(two * shx * chx, chx * chx - shx * shx, two * shy * chy, chy * chy - shy * shy, two * shz * chz, chz * chz - shz * shz, n=3))
+    out.append(L)
     return out
 
 
 def handwritten_c07():
-    return '''
+    import os
+    return open(os.path.join(os.path.dirname(os.path.abspath(__file__)), 'handwritten', 'c07_laws.rs')).read() + '''
 pub proof fn law_rad_atan2_range(a: Sc, b: Sc)
     ensures 0real - r_pi() <= rad_atan2(a, b).0@ <= r_pi(),
 { ax_atan2(a@, b@); }
